@@ -696,9 +696,19 @@ func c13GC(c *vf.Case, ioc *sonic.IO) {
 			return
 		}
 		trigger()
+		// the collector also runs INSIDE the poll batch that delivers the completion (hook at poll:batch-entry)
+		gcInBatch := 0
+		sonic.VerifSetPoint(func(name string) {
+			if name == "poll:batch-entry" && gcInBatch < 3 {
+				gcInBatch++
+				runtime.GC()
+			}
+		})
 		for i := 0; i < 400 && completed == 0; i++ {
 			_ = ioc.RunOneFor(time.Millisecond)
 		}
+		sonic.VerifSetPoint(nil)
+		c.Count("collections_inside_a_poll_batch", gcInBatch)
 		c.Logf("%s: after GC x4 + heap churn: completed=%d n=%d err=%v", kind, completed, gotN, gotErr)
 		if completed != 1 || gotErr != nil || gotN != 10 {
 			c.Failf("completion-not-delivered-after-gc/"+kind, "%s: after the garbage collector ran, the completion was delivered %d times with n=%d err=%v", kind, completed, gotN, gotErr)
